@@ -666,6 +666,8 @@ def nullness_rule(rep, sm, fi, fields=(), entry=None, quiet=False, callsites=Non
         rep.check(False, "R20.3", fi.qualname, key, fn_where(fi, n.stmt), "dereference of optional value",
                   "%s uses `%s` (%s) in `%s` on a path where it can be None: the value comes from an end-of-stream-signalling source (next_token*/current_token/a parser that returns None at end of input, or a DIMENSIONS field that was never declared) and no test rules None out; the reader fails with AttributeError/TypeError instead of a parse error"
                   % (fi.qualname, var, how, norm_stmt(n.stmt)[:80]))
+    if rep is not None and nsrc and not seen:
+        rep.ob("R20.3", fn_where(fi), "%s: %d optional-source assignments, every dereference guarded" % (fi.qualname.split("dataio.")[1], nsrc), True)
     return nsrc, len(seen)
 
 
